@@ -45,6 +45,8 @@ ROWS = [
  ("C04", "list-member-on-class-without-lists/kwargs", "fixed", "aggregates that declare no repeated elements", "any str positional argument was admitted as a list member by classes that declare no repeated element (294 classes); the instance then violates 'permitted list member types'"),
  ("C11", "to_etree/DateTime/not YYYYMMDDHHMMSS.XXX[offset:name]", "fixed", "date-times before year 1000", "years 1..999 written with fewer than four digits (strftime %Y), e.g. 9990101000000.000[+0:UTC]"),
  ("C11", "to_etree/Integer/not [+-]digits", "fixed", "a bool stored in an Integer element", "Integer element holding a bool written as 'True'/'False'"),
+ ("C18", "history/run-fails/write/FileNotFoundError", "fixed", "FI profile could not be cached when ORG or FID", "ofxget stmt for the bundled FI 'commencement' (ORG 'Cavion/Phoenix') - or any ORG/FID containing '/' - died with FileNotFoundError: the profile cache file name embedded ORG/FID verbatim (also C15: seq/valid-answer-rejected with a hostile ORG)"),
+ ("C15", "wrong-server/different-org-fid", "fixed", "FI profile cache shared by different ORG/FID pairs", "ORG 'a-b'/FID 'c' and ORG 'a'/FID 'b-c' (same URL) shared one cache file: one FI's DTPROFUP and profile were used for the other"),
  ("C06", "caller-string-entity-decoded", "known", None, "a user id / password / account id / ORG / FID... that the CALLER passes and that contains an OFX entity sequence (e.g. password 'a&lt;b' or account 'x&amp;y') is entity-decoded by String.convert() when the request model is built, so the request carries 'a<b' / 'x&y' instead of what was supplied. Not repaired: the decode-on-assignment is by design shared between parsed text and Python values; a repair needs ~20 call sites in Client.py or an API change"),
  ("C15", "wrong-server/same-org-fid-different-url", "fixed", "FI profile cached from one server", "cache keyed by ORG-FID only: client of another URL sent A's DTPROFUP and used A's profile"),
 ]
